@@ -678,7 +678,7 @@ func receiptBytes(em *evmtypes.Message, shape string) []byte {
 		r.Logs = []*ethtypes.Log{foreign, foreign, deployed}
 	case "manylogs":
 		r.Logs = nil
-		for i := 0; i < 3000; i++ {
+		for i := 0; i < 400; i++ {
 			r.Logs = append(r.Logs, foreign)
 		}
 		r.Logs = append(r.Logs, deployed)
